@@ -57,6 +57,7 @@ void (*vp_switch_hook)(int from, int to);   /* called right before control moves
 void vp_set_state_fn(uint64_t (*fn)(void)) { state_fn = fn; }
 int vp_co_self(void) { return cur; }
 int vp_co_done(int id) { return CO[id].st == CO_DONE; }
+int vp_co_others_idle(void) { int i; for (i = 0; i < nco; i++) if (i != cur && CO[i].st == CO_RUNNABLE) return 0; return 1; }
 const char *vp_co_name(int id) { return id < 0 ? "main" : CO[id].name; }
 void vp_local_mix(uint64_t v) { if (cur >= 0) CO[cur].local = vp_hash(&v, 8, CO[cur].local); }
 void vp_local_reset(uint64_t pc) { if (cur >= 0) CO[cur].local = pc * 0x9e3779b97f4a7c15ULL + 1; }
